@@ -187,7 +187,7 @@ def pre(ck: Check):
 def run(ck: Check):
     rng, thorough = ck.rng, ck.tier == "thorough"
     lines, impl, metas = [], [], []
-    dist = {"calls": 0, "commands": len(COMMANDS), "subsets": 0, "legacy_calls": 0, "service_calls": 0}
+    dist = {"calls": 0, "commands": len(COMMANDS), "subsets": 0, "legacy_calls": 0, "service_calls": 0, "bare_followups": 0}
     viol_keys = set()
 
     def check_call(method, mname, kwargs, apiv):
@@ -259,6 +259,11 @@ def run(ck: Check):
                         c = cls if not thorough else rng.choice(["falsy", "typical", "extreme", cls])
                         kwargs[p.name] = value(str(p.annotation), p.name, i, c)
                     check_call(method, mname, kwargs, apiv)
+                    # history: the same call again without the optional arguments must carry none of them (a request
+                    # object or a default kept from an earlier call would show here)
+                    if ss and (len(subsets) <= 64 or rng.random() < 0.2):
+                        dist["bare_followups"] += 1
+                        check_call(method, mname, {p.name: kwargs[p.name] for p in required}, apiv)
     # legacy cover: exact open/close positions
     for apiv in [(1, 0), (0, 5), (1, 1)]:
         for pos in (1.0, 0.0, 0.5, None):
@@ -277,7 +282,12 @@ def run(ck: Check):
         for ival in (0, 5, -7, 2 ** 31 - 1):
             client, conn, tr, loop = live.make_client(api_version=apiv)
             data = {"b": ival % 2 == 0, "i": ival, "f": 0.25, "s": "x", "ba": [True, False], "ia": [1, ival], "fa": [0.5], "sa": ["p", ""]}
-            client.execute_service(svc, data)
+            try:
+                client.execute_service(svc, data)
+            except Exception as e:  # noqa: BLE001
+                ck.violation("c15:raised:execute_service", f"execute_service at API {apiv} with one argument of every type raised "
+                             f"{type(e).__name__}: {e}", {"api_version": list(apiv), "i": ival})
+                continue
             msg = decode_one(tr)
             dist["service_calls"] += 1
             lines.append(f"cmd.svcint {apiv[0]} {apiv[1]}")
@@ -295,6 +305,79 @@ def run(ck: Check):
             if not ok:
                 ck.violation(f"c15:execute_service:{'>=1.3' if apiv >= (1, 3) else '<1.3'}",
                              f"execute_service at API {apiv} with i={ival}: arguments {msg.args}", {"api_version": list(apiv), "i": ival})
+    # execute_service, whole calls: random signatures (any types in any order, repeated names, an unknown type number), data
+    # with non-default values (so that the field that carried each one is visible after decoding), some values missing
+    TY = {"b": AT.BOOL, "i": AT.INT, "f": AT.FLOAT, "s": AT.STRING, "B": AT.BOOL_ARRAY, "I": AT.INT_ARRAY, "F": AT.FLOAT_ARRAY,
+          "S": AT.STRING_ARRAY, "u": 99}
+
+    def sval(code, k):
+        return {"b": True, "i": 3 + k, "f": 0.5 + k, "s": f"v{k}", "B": [True, False, True][: 1 + k % 3], "I": [k + 1, -k - 2],
+                "F": [0.25 + k], "S": [f"x{k}", "y"]}.get(code, 1)
+
+    def stok(v):
+        if isinstance(v, (list, tuple)) or hasattr(v, "extend"):
+            return "[" + ",".join(stok(x) for x in v) + "]"
+        if isinstance(v, bool):
+            return "T" if v else "F"
+        if isinstance(v, float):
+            return f"q{Fraction(v).numerator}/{Fraction(v).denominator}"
+        if isinstance(v, int):
+            return f"n{v}"
+        return "s" + str(v).encode().hex()
+
+    for _ in range(1500 if thorough else 300):
+        apiv = rng.choice([(1, 0), (1, 2), (1, 3), (1, 4), (1, 10), (2, 0), (2, 2), (0, 99), (3, 1)])
+        n = rng.randrange(0, 7)
+        codes = [rng.choice("bifsBIFS" * 4 + "u") if rng.random() < 0.9 else "i" for _ in range(n)]
+        names = [rng.choice(["a", "b", "c", "d", "e", "f", "g"]) for _ in range(n)]
+        data, toks = {}, []
+        vals = {}
+        for k, (nm_, c) in enumerate(zip(names, codes)):
+            if nm_ not in vals:
+                vals[nm_] = None if rng.random() < 0.04 else sval(c, k)   # (a repeated name keeps the value of its first type)
+        # a repeated name must carry a value every one of its types accepts: give repeated names one type
+        first = {}
+        for i_, nm_ in enumerate(names):
+            first.setdefault(nm_, codes[i_])
+            if codes[i_] != "u":
+                codes[i_] = first[nm_] if first[nm_] != "u" else codes[i_]
+        for nm_ in vals:
+            c = first[nm_]
+            if vals[nm_] is not None:
+                vals[nm_] = sval(c if c != "u" else "i", len(nm_) + ord(nm_[0]) % 5)
+                data[nm_] = vals[nm_]
+        svc2 = M.UserService(name="s", key=11, args=[M.UserServiceArg(name=nm_, type=TY[c]) for nm_, c in zip(names, codes)])
+        line = f"cmd.svc {apiv[0]} {apiv[1]} " + " ".join(f"{nm_}:{c}:{stok(vals[nm_]) if vals[nm_] is not None else '-'}" for nm_, c in zip(names, codes))
+        client, conn, tr, loop = live.make_client(api_version=apiv)
+        try:
+            client.execute_service(svc2, data)
+            msg = decode_one(tr)
+            got = []
+            for a in msg.args:
+                lf = a.ListFields()
+                got.append("+".join(f"{fd.name}={stok(v)}" for fd, v in lf))
+            obs = ("ok " + " ".join(got)).strip() if got else "ok "
+            if msg.key != 11 or len(msg.args) != n:
+                ck.violation("c15:execute_service:shape", f"execute_service sent key {msg.key} with {len(msg.args)} arguments for {n} declared", {"line": line})
+        except Exception as e:  # noqa: BLE001
+            obs = "raises"
+            if "u" not in codes and all(v is not None for v in vals.values()):
+                ck.violation("c15:raised:execute_service", f"execute_service at API {apiv} raised {type(e).__name__}: {e} for a call "
+                             f"with every declared argument supplied [{line}]", {"line": line, "api_version": list(apiv)})
+            if tr.writes:
+                ck.violation("c15:execute_service:written-then-raised", f"execute_service raised {type(e).__name__} after writing", {"line": line})
+        dist["service_calls"] += 1
+        # --- spec on the implementation, from the property text: each supplied value in the field of its declared type
+        if obs != "raises":
+            fieldof = {"b": "bool_", "f": "float_", "s": "string_", "B": "bool_array", "I": "int_array", "F": "float_array",
+                       "S": "string_array", "i": "int_" if apiv >= (1, 3) else "legacy_int"}
+            want = "ok " + " ".join(f"{fieldof.get(c, '?')}={stok(vals[nm_])}" for nm_, c in zip(names, codes))
+            if obs.strip() != want.strip():
+                ck.violation("c15:execute_service:args", f"execute_service at API {apiv}: sent [{obs}] for the call [{line}], the declared types prescribe [{want}]",
+                             {"line": line, "api_version": list(apiv)})
+        lines.append(line.strip())
+        impl.append([obs.strip()])
+        metas.append(("execute_service", line, apiv))
     # ---- model vs implementation
     outs = run_driver_parallel([lines[i::16] for i in range(16)])
     compared = 0
@@ -304,7 +387,7 @@ def run(ck: Check):
             continue
         for l, m, o, meta in zip(lines[i::16], outs[i], impl[i::16], metas[i::16]):
             compared += 1
-            mm = norm_model(m) if not l.startswith("cmd.svcint") else [m]
+            mm = norm_model(m) if not l.startswith("cmd.svc") else [m.strip()]
             if l.startswith("cmd.enc") or l.startswith("cmd.cover") or l.startswith("cmd.preset"):
                 mm = [t for t in mm if not (l.startswith("cmd.cover") and t.startswith("key="))]
             if mm != o:
